@@ -1,6 +1,7 @@
 import SecsModel.Props.C20
 import SecsModel.Props.C20b
 import SecsModel.Props.C20c
+import SecsModel.Props.C20d
 #print axioms SecsModel.Props.C20.tables_match_source
 #print axioms SecsModel.Props.C20.safety_all_histories
 #print axioms SecsModel.Props.C20.established_only_by_exchange
@@ -32,3 +33,6 @@ import SecsModel.Props.C20c
 #print axioms SecsModel.Props.C20c.host_events
 #print axioms SecsModel.Props.C20c.witness_explicit_report_id
 #print axioms SecsModel.Props.C20c.alarms_reach_host
+#print axioms SecsModel.Props.C20d.hsms_end_to_end
+#print axioms SecsModel.Props.C20d.split_block_ok
+#print axioms SecsModel.Props.C20d.secsi_end_to_end
